@@ -324,6 +324,13 @@ func c13Gen1(r *vfRand, i int, adv bool) *zz.In {
 		in.Reqs = zz.DefaultReqs(g, in.Kind, in.Doc)
 		return in
 	}
+	if !adv && i%13 == 8 {
+		// boundary relations between the numeric parameters of a CircuitBreaker policy, one full cycle per run
+		k := i/13 + int(vfSeed()%1000)*zz.CBCombos
+		in.Cat, in.Kind = "resilience", "CircuitBreaker"
+		in.Doc = zz.CBComboDoc(k)
+		return in
+	}
 	if !adv && i%11 == 6 {
 		// inherited / overridable fields of the Proxy: filter-level x pool-level values x memoryCache x
 		// compression x failureCodes, enumerated in rotation (occasionally perturbed by one mutation)
